@@ -4,6 +4,12 @@ import json, subprocess
 
 # id -> (category, engine, technique, text, note, design_ref)
 CHECKS = {
+ "C05": ("fault_enumeration", "E-wire", "deviation-bounded exhaustive fault enumeration (1 deviation; 2 in thorough) over an honest setup conversation with the reference peer, plus all short byte strings at every parser entry, executed on the real connect path",
+         "The real x224::Client::connect, mcs::Client::connect and sec::connect (licence) are run against the reference peer with every single deviation of every server message: every byte offset x value set (all 256 in thorough), every offset as 16/32-bit field in both byte orders x boundary set, every truncation, extensions; every message payload and every parser entry (gcc response, licence, per primitives) additionally receives every byte string of length <=2 (<=3) and every string of length 3..5 (..6) over 8 boundary bytes; thorough adds all pairs of {00, FF, truncate} faults. Oracle: the call returns (panic caught and attributed), no abort, allocation rule, read-count bound, no hang (per-case journal + timeout).",
+         "Post-negotiation layers run over Stream::Raw via hook H3 (the TLS path is C02/C07). The checked build (overflow checks on) decides; the wrapping build is part of thorough. Trusted: reference peer, counting allocator.", "§4 C05"),
+ "C06": ("fault_enumeration", "E-wire", "deviation-bounded exhaustive fault enumeration over every server PDU kind in each of the six client states reached by the honest prefix, plus all short strings at the PDU parser entries, executed on the real RdpClient::read",
+         "For each activation state (reached through the real RdpClient::read on the raw stack) one server frame of each of 13 PDU kinds is delivered with every single deviation (byte x value set, 16/32-bit boundary fields at every offset in both byte orders, every truncation, extensions); the MCS, share-control and fast-path parser entries receive every byte string of length <=2 (<=3) and every 3..5 (..6) byte string over 8 boundary values; thorough adds all pairs of {00, FF, truncate} faults in states 0 and 5. An honest PDU is read afterwards to expose desynchronisation loops. Oracle as C05.",
+         "Raw stack via hooks H3/H4. Trusted: reference builders, counting allocator.", "§4 C06"),
  "C08": ("exploration", "E-codec", "bounded-exhaustive enumeration of (dimensions, depth, flag, data) incl. all 2-byte (3-byte thorough) strings and grammar-aware order sequences on the real decompress, with an allocation bound",
          "Every data string of length <=2 (<=3 thorough) for every small dimension pair (0..4 squared plus 8x1,1x8,9x2,255x1,256x256), grammar-aware sequences of interleaved-RLE orders (every order kind x form x boundary run length, undefined codes, truncated headers) and of planar control segments, all 256 planar header bytes, and uncompressed data lengths around the exact size are executed on the real BitmapEvent::decompress. Oracle: returns (no panic), Ok => exactly w*h*4 bytes, peak allocation <= 4*(w*h*4)+8*len+64KiB.",
          "Dimensions above 256x256 and longer unstructured strings are outside the bound. Trusted: counting allocator, reference order emitter.", "§4 C08"),
